@@ -935,6 +935,11 @@ impl Interp {
                 let mut tags = stmt_tags(&s, &self.model.committed);
                 tags.extend(self.history_tags(&s, &self.model.committed));
                 if !self.txns.is_empty() {
+                    if let Stmt::Insert { table, .. } = &s {
+                        if self.model.committed.tables.get(table).map(|t| !t.def.uniques.is_empty()).unwrap_or(false) {
+                            tags.push("insert.unique_concurrent".into());
+                        }
+                    }
                     if let Stmt::DropTable { table } = &s {
                         let touched = |e: &Effect| match e {
                             Effect::Insert { table: t, .. } | Effect::Update { table: t, .. } | Effect::Delete { table: t, .. } | Effect::AddUnique { table: t, .. } => t == table,
@@ -1036,6 +1041,11 @@ impl Interp {
                 let mut tags = stmt_tags(&stmt, &txn.view);
                 tags.push("txn.session".into());
                 tags.extend(self.history_tags(&stmt, &txn.view));
+                if let Stmt::Insert { table, .. } = &stmt {
+                    if self.txns.len() > 1 && txn.view.tables.get(table).map(|t| !t.def.uniques.is_empty()).unwrap_or(false) {
+                        tags.push("insert.unique_concurrent".into());
+                    }
+                }
                 if let Stmt::Delete { table, .. } = &stmt {
                     tags.push("delete.in_txn".into());
                     if txn.view.tables.get(table).map(|t| !t.def.uniques.is_empty()).unwrap_or(false) {
